@@ -59,6 +59,13 @@ where
             return Err(InvalidView);
         }
 
+        // The archived root sits at the end of the body, a body shorter than
+        // the root cannot be a valid message even if its checksum matches
+        // (i.e. the 4 zero bytes which are the checksum of an empty body.)
+        if data_bytes.len() < mem::size_of::<T::Archived>() {
+            return Err(InvalidView);
+        }
+
         let view = unsafe { rkyv::archived_root::<T>(data_bytes) };
 
         Ok(Self { data, view })
